@@ -359,6 +359,9 @@ def run_pipelined_cwd(case, chooser):
         from vf.conform import connection_of
         import pathlib
         c = connection_of(rig, 0)
+        if c is None:
+            return {"problems": [{"kind": "session-lost-right-after-login", "sent": []}], "trace": report.fp(w.net.trace),
+                    "events": w.net.n_events, "outcome": "no-session"}
         c.current_directory = pathlib.PurePosixPath(cwd1)
         before = rig.snapshot()
         spy.armed = True
